@@ -1158,7 +1158,10 @@ func (ctx *Context) evaluate() {
 				return
 			}
 
-			num, _, _, detailText := RollWoD(ctx.RandSrc, addLine, wodState.pool, wodState.points, wodState.threshold, wodState.isGE, getRollMode())
+			num, _, _, detailText := rollWoD(ctx.RandSrc, addLine, wodState.pool, wodState.points, wodState.threshold, wodState.isGE, getRollMode(), numOpCountAdd)
+			if ctx.Error != nil {
+				return
+			}
 			ret := NewIntVal(num)
 			lastDetail().Ret = ret
 			lastDetail().Text = detailText
@@ -1191,7 +1194,10 @@ func (ctx *Context) evaluate() {
 			if !doubleCrossCheck(ctx, addLine, dcState.pool, dcState.points) {
 				return
 			}
-			success, _, _, detailText := RollDoubleCross(ctx.RandSrc, addLine, dcState.pool, dcState.points, getRollMode())
+			success, _, _, detailText := rollDoubleCross(ctx.RandSrc, addLine, dcState.pool, dcState.points, getRollMode(), numOpCountAdd)
+			if ctx.Error != nil {
+				return
+			}
 			ret := NewIntVal(success)
 			lastDetail().Ret = ret
 			lastDetail().Text = detailText
